@@ -493,7 +493,13 @@ func runC10(r *Run) {
 				}
 				if s, ok := in.(*ssa.Store); ok {
 					if _, f := addrField(s.Addr); f == evErr && !isNilConst(s.Val) {
-						return 1, false
+						// what is stored is the error of a step that failed on this path, or is built from it
+						for _, sp := range steps {
+							if c.NilState(sp.err) == -1 && errDependsOn(s.Val, sp.err, 0) {
+								return 1, false
+							}
+						}
+						return 0, false
 					}
 				}
 				if cl, ok := in.(*ssa.Call); ok && callsFn(cl, m.Handle) {
@@ -508,7 +514,7 @@ func runC10(r *Run) {
 						}
 						if st&1 == 0 && !rep[cl] {
 							rep[cl] = true
-							ee.ViolationPath(fn, instrPos(cl), "handler called with the stale event after a failed "+sp.what, "the "+sp.what+" failed on this path, but the event's Error was not stored afterwards: the handler is told of the timeout that triggered the retransmission, not of the error that ended the transaction", c.Witness(fn, cl))
+							ee.ViolationPath(fn, instrPos(cl), "handler called with the stale event after a failed "+sp.what, "the "+sp.what+" failed on this path, but the event's Error was not stored afterwards with that error (or a value built from it): the handler is told of the timeout that triggered the retransmission, or of an unrelated error, not of the one that ended the transaction", c.Witness(fn, cl))
 						}
 					}
 				}
@@ -581,7 +587,7 @@ func runC10(r *Run) {
 	cl.Done()
 
 	// ---- Do
-	do := r.Rule("C10.do", "Do waits on every path on which Start returned nil and on none on which it returned an error; the wait is a loop on the processed flag under the condition lock; the event handler runs the callback, then sets processed, then broadcasts, all under that lock", 3)
+	do := r.Rule("C10.do", "Do waits on every path on which Start returned nil and on none on which it returned an error; the wait is a loop on the processed flag under the condition lock; the event handler sets processed under that lock, has run the callback before that (or within the same hold of the lock) and broadcasts after it (or within the same hold)", 3)
 	checkDo(r, do, m)
 	do.Done()
 	// a pooled transaction is released only by the party that owns it (shared with C12)
@@ -874,16 +880,37 @@ func checkDo(r *Run, rc *RuleCtx, m *clientModel) {
 		rc.Violation(he, he.Pos(), "handshake incomplete", "the event handler must run the callback, set processed and broadcast")
 		return
 	}
-	if !instrDominates(cbCall, setProc) {
+	// one hold of the condition lock: both instructions are executed with the lock held and nothing between them
+	// releases it - what happens inside is seen by the waiter only as a whole (it re-acquires the lock to look)
+	sameHold := func(a, b ssa.Instruction) bool {
+		if len(li.Held(a)) == 0 || len(li.Held(b)) == 0 {
+			return false
+		}
+		first, second := a, b
+		if !instrDominates(first, second) {
+			first, second = b, a
+			if !instrDominates(first, second) {
+				return false
+			}
+		}
+		released := false
+		eachInstr(he, func(_ *ssa.BasicBlock, _ int, in ssa.Instruction) {
+			if op := lockOpOf(in); op != nil && (op.Kind == "Unlock" || op.Kind == "RUnlock") {
+				if _, isDefer := in.(*ssa.Defer); !isDefer && instrDominates(first, in) && instrDominates(in, second) {
+					released = true
+				}
+			}
+		})
+		return !released
+	}
+	if len(li.Held(setProc)) == 0 {
+		rc.Violation(he, instrPos(setProc), strings.TrimSpace(shortInstr(setProc))+" outside the condition lock", "the waiter reads the flag under cond.L: written outside it the flag is a data race, and with the broadcast outside the lock too the wake-up can be lost (the waiter checks, the flag is set and broadcast, the waiter sleeps)")
+	}
+	if !instrDominates(cbCall, setProc) && !sameHold(cbCall, setProc) {
 		rc.Violation(he, instrPos(setProc), "processed set before the callback ran", "Do can observe processed == true and return while its callback is still running")
 	}
-	if !instrDominates(setProc, bcast) {
+	if !instrDominates(setProc, bcast) && !sameHold(setProc, bcast) {
 		rc.Violation(he, instrPos(bcast), "broadcast before processed is set", "a waiter woken by the broadcast still sees processed == false and sleeps forever")
-	}
-	for _, in := range []ssa.Instruction{cbCall, setProc, bcast} {
-		if len(li.Held(in)) == 0 {
-			rc.Violation(he, instrPos(in), strings.TrimSpace(shortInstr(in))+" outside the condition lock", "the handshake steps must all happen while cond.L is held, otherwise Do can return between them")
-		}
 	}
 }
 
@@ -973,4 +1000,44 @@ func checkReenter(r *Run, rc *RuleCtx, m *clientModel, k *keyer) {
 	if q.Exhausted {
 		rc.Violation(fn, fn.Pos(), "path exploration exhausted", "undecided")
 	}
+}
+
+// errDependsOn: v is the error e itself, or an interface made of a local structure one of whose fields was
+// stored with e (StopErr{Err: stopErr, Cause: writeErr}).
+func errDependsOn(v, e ssa.Value, depth int) bool {
+	if v == e {
+		return true
+	}
+	if depth > 4 || v == nil {
+		return false
+	}
+	switch x := v.(type) {
+	case *ssa.MakeInterface:
+		return errDependsOn(x.X, e, depth+1)
+	case *ssa.ChangeInterface:
+		return errDependsOn(x.X, e, depth+1)
+	case *ssa.Phi:
+		for _, ed := range x.Edges {
+			if errDependsOn(ed, e, depth+1) {
+				return true
+			}
+		}
+	case *ssa.UnOp:
+		if x.Op == token.MUL {
+			if al, ok := x.X.(*ssa.Alloc); ok {
+				for _, u := range *al.Referrers() {
+					fa, isFA := u.(*ssa.FieldAddr)
+					if !isFA {
+						continue
+					}
+					for _, w := range *fa.Referrers() {
+						if st, isSt := w.(*ssa.Store); isSt && st.Addr == ssa.Value(fa) && errDependsOn(st.Val, e, depth+1) {
+							return true
+						}
+					}
+				}
+			}
+		}
+	}
+	return false
 }
